@@ -215,6 +215,7 @@ func (ex *Exec) Branch(c *Term) bool {
 
 var debugTrace = os.Getenv("VERIF_TRACE") != ""
 var forkStats = os.Getenv("VERIF_FORKSTATS") != ""
+var whereDebug = os.Getenv("VERIF_WHERE") != ""
 
 // Choose makes an exhaustive concrete case split 0..n-1.
 func (ex *Exec) Choose(n int) int {
